@@ -63,7 +63,7 @@ def clip(a, r):
 
 
 LEN_OF_BYTES = re.compile(r"^(core::slice::<impl \[T\]>::len|alloc::vec::Vec::<T, A>::len|core::str::<impl str>::len|alloc::string::String::len|bytes::bytes::Bytes::len|bytes::bytes_mut::BytesMut::len)$")
-WIDEN_FROM = re.compile(r"^<(u\d+|usize|i\d+|isize) as core::convert::From<(u\d+|usize|i\d+|isize|bool|char)>>::from$")
+WIDEN_FROM = re.compile(r"^<(u\d+|usize|i\d+|isize) as core::convert::From<(u\d+|usize|i\d+|isize|bool|char)>>::from$|^core::convert::num::<impl core::convert::From<(u\d+|usize|i\d+|isize|bool|char)> for (u\d+|usize|i\d+|isize)>::from$")
 NONZST = ("u8", "u16", "u32", "u64", "usize", "char", "i64", "isize", "jaq_json::Val", "bool")
 
 
@@ -272,6 +272,16 @@ class Ranges:
             if op.startswith("checked_") and a and b:
                 res = self._bin({"checked_sub": "Sub", "checked_add": "Add", "checked_mul": "Mul"}[op], a, b, ity)
                 return ("opt", clip(res, itr))
+        jm = re.search(r"^jiff::civil::(?:datetime::DateTime|date::Date|time::Time)::(\w+)$|^jiff::zoned::Zoned::(\w+)$|^jiff::civil::weekday::Weekday::(to_\w+_offset)$", decl)
+        if jm and tr:
+            # documented ranges of the calendar library's accessors (trusted, like the library itself)
+            acc = next(g for g in jm.groups() if g)
+            known = {"year": (-9999, 9999), "month": (1, 12), "day": (1, 31), "day_of_year": (1, 366), "day_of_year_no_leap": (1, 365), "hour": (0, 23), "minute": (0, 59),
+                     "second": (0, 59), "millisecond": (0, 999), "microsecond": (0, 999), "nanosecond": (0, 999), "subsec_nanosecond": (0, 999999999),
+                     "days_in_month": (28, 31), "days_in_year": (365, 366), "to_sunday_zero_offset": (0, 6), "to_monday_zero_offset": (0, 6),
+                     "to_sunday_one_offset": (1, 7), "to_monday_one_offset": (1, 7)}
+            if acc in known and within(known[acc], tr):
+                return known[acc]
         if re.search(r"^core::char::methods::<impl char>::to_digit$", decl) and len(args) == 2:
             rdx = self.operand(args[1], "u32")
             if rdx and rdx[1] != INF:
